@@ -205,3 +205,11 @@ package ipam
 //@   ghost at call assignFromExistingBlock#1: check arg8 == old(config.StrictAffinity) && arg9 == reservations
 //@   ghost at call assignFromExistingBlock#2: check !old(config.StrictAffinity) && arg9 == reservations
 //@   ghost at call randomBlockGenerator: check !old(config.StrictAffinity)
+
+//@ -- the public entry point hands each address family's search the request's own namespace, intended use,
+//@ -- block cap, handle, count and pool list
+//@ func (ipamClient).AutoAssign
+//@   property C20
+//@   option safety off
+//@   option callpre off
+//@   ghost at call autoAssign: check arg11 == args.Namespace && arg10 == args.IntendedUse && arg8 == args.MaxBlocksPerHost && arg3 == args.HandleID ; check arg6 == 4 ==> (arg2 == args.Num4 && arg5 == args.IPv4Pools && arg9 == args.HostReservedAttrIPv4s) ; check arg6 == 6 ==> (arg2 == args.Num6 && arg5 == args.IPv6Pools && arg9 == args.HostReservedAttrIPv6s) ; check arg6 == 4 || arg6 == 6
